@@ -130,6 +130,7 @@ def run(ctx, report):
     for config in ctx.configs:
         facts = ctx.facts(config)
         report.guard("C04.FANOUT", F.check_family, ctx, report, "C04.FANOUT", facts, config, (F.RUN,))
+        report.guard("C04.UNLISTED", F.unlisted, ctx, report, "C04.UNLISTED", facts, config, (F.RUN,))
         report.guard("C04.FANOUT", F.carrier_inventory, ctx, report, "C04.FANOUT", facts, config)
         report.guard("C04.FANOUT", batch_run, ctx, report, facts, config)
         from . import c07
